@@ -79,6 +79,9 @@ def main(tier, only=None):
     rules_check.run(rep, rules, K, thorough, select=sel)
     is_ord = lambda sql: bool(re.search(r'\border\s+by\b|\blimit\b|\boffset\b', sql, re.I))
     query_layer.run(rep, 'C12', K, thorough, 1500 if thorough else 200, only=only, include_repo=True, select_sql=is_ord, extra_groups=family(thorough))
+    if not only:
+        from . import conform
+        conform.run(rep, 'C12', thorough, families=('topn',))
     return rep.finish()
 
 
